@@ -1019,10 +1019,11 @@ func (e *env) scenDgram(u *vf.Unit) result {
 		}
 	}
 	fit := 1280 - 1 - dcid - 4 - 16
+	srvMax := maxP
 	maxP = min(maxP, fit-3)
 	var sent [][]byte
 	for i, d := range e.sc.Deltas {
-		p := make([]byte, max(0, maxP-min(d, maxP)))
+		p := make([]byte, min(srvMax, max(0, maxP-min(d, maxP))))
 		fill(p, 0, e.c.Seed+uint64(i))
 		if err := e.sconn.SendDatagram(p); err != nil {
 			if v := e.alive(fmt.Sprintf("%s: while the peer was sending datagram #%d of %d bytes", what, i, len(p))); v != nil {
